@@ -110,8 +110,23 @@ thread_local! {
     pub static NEXT_ID: RefCell<u64> = RefCell::new(1000);
 }
 
+thread_local! {
+    /// > 0 while the harness itself allocates (event log etc.): a recording allocator skips these
+    pub static ALLOC_PAUSE: std::cell::Cell<u32> = const { std::cell::Cell::new(0) };
+}
+pub fn paused<R>(f: impl FnOnce() -> R) -> R {
+    ALLOC_PAUSE.with(|p| p.set(p.get() + 1));
+    let r = f();
+    ALLOC_PAUSE.with(|p| p.set(p.get() - 1));
+    r
+}
 pub fn log(s: String) {
-    LOG.with(|l| l.borrow_mut().push(s));
+    paused(|| LOG.with(|l| l.borrow_mut().push(s)));
+}
+/// log a formatted event without the formatting itself being seen by a recording allocator
+#[macro_export]
+macro_rules! logf {
+    ($($arg:tt)*) => { $crate::paused(|| $crate::log(format!($($arg)*))) };
 }
 pub fn take_log() -> Vec<String> {
     LOG.with(|l| std::mem::take(&mut *l.borrow_mut()))
@@ -144,7 +159,7 @@ impl Tr {
 }
 impl Drop for Tr {
     fn drop(&mut self) {
-        log(format!("drop:{}", self.id));
+        logf!("drop:{}", self.id);
         let bad = BAD_DROP.with(|b| {
             let mut b = b.borrow_mut();
             if *b == Some(self.id) {
@@ -169,12 +184,12 @@ impl Clone for Tr {
         });
         let bad = BAD_CLONE.with(|b| *b.borrow() == Some(k));
         if bad {
-            log(format!("l{}:{}", k, self.id));
-            log(format!("panic:{}", k));
+            logf!("l{}:{}", k, self.id);
+            logf!("panic:{}", k);
             panic!("inject:clone:{}", k);
         }
         let id = fresh_id();
-        log(format!("clone:{}:{}>{}", k, self.id, id));
+        logf!("clone:{}:{}>{}", k, self.id, id);
         Tr { id }
     }
 }
@@ -188,11 +203,11 @@ impl Default for Tr {
         });
         let bad = BAD_CLONE.with(|b| *b.borrow() == Some(k));
         if bad {
-            log(format!("panic:{}", k));
+            logf!("panic:{}", k);
             panic!("inject:default:{}", k);
         }
         let id = fresh_id();
-        log(format!("take:{}:{}", k, id));
+        logf!("take:{}:{}", k, id);
         Tr { id }
     }
 }
@@ -212,12 +227,12 @@ impl Clone for Pl {
         });
         let bad = BAD_CLONE.with(|b| *b.borrow() == Some(k));
         if bad {
-            log(format!("l{}:{}", k, self.id));
-            log(format!("panic:{}", k));
+            logf!("l{}:{}", k, self.id);
+            logf!("panic:{}", k);
             panic!("inject:clone:{}", k);
         }
         let id = fresh_id();
-        log(format!("clone:{}:{}>{}", k, self.id, id));
+        logf!("clone:{}:{}>{}", k, self.id, id);
         Pl { id }
     }
 }
